@@ -25,6 +25,10 @@ void use_all(C& c) {
 }'''
 
 cpp2coq.SCHEMA["rr_cache"] = dict(
+    ctor=True, elem_default="{| e_keyed := None; e_pos := 0; e_val := None |}",
+    # the engine is seeded from std::random_device: the draws are unconstrained (the theorems quantify over every
+    # draw list), so the two members are not part of the initial state
+    ctor_ignore=["m_random_device", "m_mt"], ctor_const={"x_rnd": "[]"},
     module="GenRr", requires=["Capp.Base", "Capp.Rr", "Capp.RrLit"], inst=INST,
     state="with_rng (rrl K V)", state_args="", elem="relem", elem_args="K V", cap="x_cap",
     # (accessor of the generated file, C++ member, kind, component of the literal record / of with_rng)
@@ -54,6 +58,10 @@ class Ext(cpp2coq.Tr):
             out.append("Definition set_%s (s : %s) x : %s := {| rs_st := {| %s |}; rs_rng := rs_rng s |}." % (x, ty, ty, rec))
         out.append("Definition set_%s (s : %s) x : %s := {| rs_st := rs_st s; rs_rng := x |}." % (sc["rng_field"], ty, ty))
         return out
+
+    def ctor_record(self, F, params):
+        rec = "; ".join("%s := %s" % (l, F[x]) for x, l in self.sc["lit_fields"])
+        return "Definition g_init %s : rrl K V := {| %s |}." % (" ".join(params), rec)
 
     def akind_ext(self, t, param):
         if t.startswith("std::uniform_int_distribution<"):
